@@ -59,3 +59,37 @@ End C02.
 
 (* non-vacuity: a concrete wrap *)
 Example C02_ex : wrap CI8 (100 + 100) = -56. Proof. reflexivity. Qed.
+
+(* more integer functions, for every integer dtype and every operand value: square, abs (wrapping like NumPy:
+   abs(int8(-128)) = -128), sign (uint64 excluded: see the known finding on the int64 detour), the bitwise functions *)
+From ND Require Import Ndx.ElemIntMore.
+Section C02More.
+  Variable tr : op1 -> core -> spec_float -> spec_float.
+  Variable trpow : core -> spec_float -> spec_float -> spec_float.
+  Notation run := (run tr trpow).
+  Theorem C02_square_wraps : forall c x, is_int c = true ->
+    exists e, row1 "square" c = Some e /\ run e c [x] = RV (VI c (wrap c (x * x))).
+  Proof. exact (square_int_spec tr trpow). Qed.
+  Theorem C02_abs_wraps : forall c x, is_int c = true ->
+    exists e, row1 "abs" c = Some e /\ run e c [x] = RV (VI c (wrap c (Z.abs x))).
+  Proof. exact (abs_int_spec tr trpow). Qed.
+  Theorem C02_sign : forall c x, is_int c = true -> c <> CU64 -> in_range c x ->
+    exists e, row1 "sign" c = Some e /\ run e c [x] = RV (VI c (wrap c (Z.sgn x))).
+  Proof. exact (sign_int_spec tr trpow). Qed.
+  Theorem C02_bitwise_invert : forall c x, is_int c = true ->
+    exists e, row1 "bitwise_invert" c = Some e /\ run e c [x] = RV (VI c (wrap c (Z.lnot x))).
+  Proof. exact (bitwise_invert_int_spec tr trpow). Qed.
+  Theorem C02_bitwise_and : forall c x y, is_int c = true ->
+    exists e, row2 "bitwise_and" c = Some e /\ run e c [x; y] = RV (VI c (wrap c (Z.land x y))).
+  Proof. exact (bitwise_and_int_spec tr trpow). Qed.
+  Theorem C02_bitwise_or : forall c x y, is_int c = true ->
+    exists e, row2 "bitwise_or" c = Some e /\ run e c [x; y] = RV (VI c (wrap c (Z.lor x y))).
+  Proof. exact (bitwise_or_int_spec tr trpow). Qed.
+  Theorem C02_bitwise_xor : forall c x y, is_int c = true ->
+    exists e, row2 "bitwise_xor" c = Some e /\ run e c [x; y] = RV (VI c (wrap c (Z.lxor x y))).
+  Proof. exact (bitwise_xor_int_spec tr trpow). Qed.
+End C02More.
+Print Assumptions C02_square_wraps.
+Print Assumptions C02_sign.
+Print Assumptions C02_bitwise_xor.
+Example C02_abs_ex : wrap CI8 (Z.abs (-128)) = -128. Proof. reflexivity. Qed.
